@@ -3,9 +3,9 @@ CONSTANTS
   MaxCalls = 2
   MaxTimer = 0
   QCap = 2
-  CallKinds = {"AsyncA", "SyncB", "FlushSync"}
+  CallKinds = {"AsyncA", "SyncB"}
   Server = "raw"
-  Faults = {"wrongtype", "extra", "swap", "exception", "garbage", "close", "halfclose", "midframe"}
+  Faults = {"exception"}
   MaxFaults = 1
   Chunked = FALSE
   UserStop = TRUE
